@@ -640,8 +640,12 @@ PathBoxOf(ks) ==
 \* out: whether such a point belongs to the box is not stated anywhere
 PathOK(ks) == \A i \in 1..Len(ks) : IsMove(ks[i]) => (i < Len(ks) /\ ~IsMove(ks[i + 1]) /\ ~IsClose(ks[i + 1]) /\ ~IsBearing(ks[i + 1]))
 PathSeqs == UNION {[1..k -> PathCmds] : k \in 1..(IF Tier = "quick" THEN 3 ELSE 4)}
+\* two sub-paths whatever the tier: a moveto, a drawing command, a closepath, and a relative command
+\* that goes on from where the closepath returned to (the start of THAT sub-path)
+TwoSubPaths == {<<mv, d1, cl, d2>> : mv \in {k \in PathCmds : IsMove(k)}, d1 \in {k \in PathCmds : ~IsMove(k) /\ ~IsClose(k) /\ ~IsBearing(k)},
+                                    cl \in {k \in PathCmds : IsClose(k)}, d2 \in {k \in PathCmds : k[1] \in {"l", "h", "v"}}}
 PathBoxCases ==
-    {[fam |-> "pathbox", cmds |-> ks, box |-> PathBoxOf(ks)] : ks \in {s \in PathSeqs : PathOK(s) /\ ~IsClose(s[1])}}
+    {[fam |-> "pathbox", cmds |-> ks, box |-> PathBoxOf(ks)] : ks \in {s \in PathSeqs : PathOK(s) /\ ~IsClose(s[1])} \cup TwoSubPaths}
 PathBoxIdentities ==
     c.fam = "pathbox" =>
         \* the start point is in the box; a closepath alone never changes the box
